@@ -42,6 +42,10 @@ merge_error(int p1, int p2, int p3, int reason)
 {
   PyObject *r;
 
+  /* A value comparison that raised got us here: report that error. */
+  if (PyErr_Occurred())
+    return NULL;
+
   UNLESS (r=Py_BuildValue("iiii", p1, p2, p3, reason)) r=Py_None;
   if (ConflictError == NULL) {
   	ConflictError = PyExc_ValueError;
@@ -62,7 +66,26 @@ merge_error(int p1, int p2, int p3, int reason)
  * values that are equal but not orderable, such as dicts.
  */
 #ifdef VALUE_TYPE_IS_PYOBJECT
-#define VALUE_SAME(V1, V2) (PyObject_RichCompareBool((V1), (V2), Py_EQ) > 0)
+/* 1: same, 0: different.  A comparison that raises sets *failed (and every
+ * later answer is 0, without comparing again while the error is pending);
+ * bucket_merge then gives up and the error reaches the caller.
+ */
+static int
+merge_value_same(PyObject *v1, PyObject *v2, int *failed)
+{
+  int r;
+
+  if (*failed)
+    return 0;
+  r = PyObject_RichCompareBool(v1, v2, Py_EQ);
+  if (r < 0)
+    {
+      *failed = 1;
+      return 0;
+    }
+  return r;
+}
+#define VALUE_SAME(V1, V2) merge_value_same((V1), (V2), &value_cmp_failed)
 #else
 #define VALUE_SAME(V1, V2) (TEST_VALUE((V1), (V2)) == 0)
 #endif
@@ -103,6 +126,7 @@ bucket_merge(Bucket *s1, Bucket *s2, Bucket *s3)
   PyObject *s;
   SetIteration i1 = {0,0,0}, i2 = {0,0,0}, i3 = {0,0,0};
   int cmp12, cmp13, cmp23, mapping, set;
+  int value_cmp_failed = 0;
 
   /* If either "after" bucket is empty, punt. */
   if (s2->len == 0 || s3->len == 0)
@@ -138,9 +162,9 @@ bucket_merge(Bucket *s1, Bucket *s2, Bucket *s3)
   /* Consult zodb/btrees/interfaces.py for the meaning of the last
    * argument passed to merge_error().
    */
-  /* TODO:  This isn't passing on errors raised by value comparisons. */
   while (i1.position >= 0 && i2.position >= 0 && i3.position >= 0)
     {
+      if (value_cmp_failed) goto err;
       TEST_KEY_SET_OR(cmp12, i1.key, i2.key) goto err;
       TEST_KEY_SET_OR(cmp13, i1.key, i3.key) goto err;
       if (cmp12==0)
@@ -272,6 +296,7 @@ bucket_merge(Bucket *s1, Bucket *s2, Bucket *s3)
 
   while (i1.position >= 0 && i2.position >= 0)
     {                           /* remainder of i1 deleted in i3 */
+      if (value_cmp_failed) goto err;
       TEST_KEY_SET_OR(cmp12, i1.key, i2.key) goto err;
       if (cmp12 > 0)
         {                       /* insert i2 */
@@ -292,6 +317,7 @@ bucket_merge(Bucket *s1, Bucket *s2, Bucket *s3)
 
   while (i1.position >= 0 && i3.position >= 0)
     {                           /* remainder of i1 deleted in i2 */
+      if (value_cmp_failed) goto err;
       TEST_KEY_SET_OR(cmp13, i1.key, i3.key) goto err;
       if (cmp13 > 0)
         {                       /* insert i3 */
@@ -309,6 +335,9 @@ bucket_merge(Bucket *s1, Bucket *s2, Bucket *s3)
           goto err;
         }
     }
+
+  if (value_cmp_failed)
+    goto err;
 
   if (i1.position >= 0)
     {                           /* Dueling deletes */
